@@ -228,6 +228,8 @@ def main(argv=None):
             st = native_stats.get(t)
             if st and st["admitted_by_requires"] > 0:
                 undecided.append("%s: degraded to bounded stand-in (%s): %d inputs" % (t, r["engine_error"], st["admitted_by_requires"]))
+            elif cfg.get("bounded"):
+                undecided.append("%s: degraded to the property's bounded stand-ins (%s)" % (t, r["engine_error"]))
             else:
                 undecided.append("%s: %s; no bounded stand-in available" % (t, r["engine_error"]))
                 broken.append("UNDECIDED " + t + ": " + r["engine_error"])
@@ -301,9 +303,17 @@ def main(argv=None):
         try:
             mod = importlib.import_module(modname)
             res = getattr(mod, fn)(REPO, tier, seed)
-        except Exception:
-            broken.append("bounded check %s crashed: %s" % (spec["run"], traceback.format_exc()[-1200:]))
-            continue
+        except Exception as e:
+            tb = traceback.extract_tb(e.__traceback__)
+            if tb and tb[-1].filename.startswith(REPO) or any(f.filename.startswith(REPO) for f in tb[-4:]):
+                # the real code raised on an input the stand-in considers admissible
+                res = {"bound": "aborted", "evaluations": 0, "distinct": 0, "failures": [{
+                    "key": "raised-" + type(e).__name__, "input": None,
+                    "observed": "the code under check raised %s: %s" % (type(e).__name__, str(e)[:200]),
+                    "traceback": traceback.format_exc()[-1500:]}]}
+            else:
+                broken.append("bounded check %s crashed: %s" % (spec["run"], traceback.format_exc()[-1200:]))
+                continue
         bounded.append({"what": spec["what"], "bound": res.get("bound"), "evaluations": res.get("evaluations"),
                         "distinct": res.get("distinct"), "exhaustive": res.get("exhaustive", False),
                         "failures": len(res.get("failures", [])), "samples": res.get("samples", [])[:2]})
